@@ -180,14 +180,32 @@ class ID3(ID3Tags, mutagen.Metadata):
                 frames, offset = find_id3v1(fileobj, v1v2_ver, known_frames)
                 if frames:
                     for v in frames.values():
-                        if len(self.getall(v.HashKey)) == 0:
-                            self.add(v)
+                        if len(self.getall(v.HashKey)) != 0:
+                            continue
+                        if v.FrameID == "COMM" and self.__is_v1_copy(v):
+                            continue
+                        self.add(v)
 
         if translate:
             if v2_version == 3:
                 self.update_to_v23()
             else:
                 self.update_to_v24()
+
+    def __is_v1_copy(self, v1_comment):
+        """If the ID3v1 comment just repeats (the start of) an ID3v2 comment
+        without description, like the one MakeID3v1 writes."""
+
+        if not v1_comment.text:
+            return False
+        v1_data = v1_comment.text[0].encode('latin1', 'replace')
+        for frame in self.getall("COMM"):
+            if frame.desc != u"" or not frame.text:
+                continue
+            data = frame.text[0].encode('latin1', 'replace')
+            if data.strip().startswith(v1_data):
+                return True
+        return False
 
     def _prepare_data(self, fileobj, start, available, v2_version, v23_sep,
                       pad_func):
